@@ -12,7 +12,7 @@ PROPS = {
         runs=[dict(pkg="lexer", files=["lexer/zz_verif_json.go", "lexer/zz_verif_stateful.go", "lexer/zz_verif_lexdefs.go", "lexer/zz_verif_lexgen.go", "lexer/zz_verif_conc.go"], harness="^VH_C16_",
                    flags=["-exec-pkgs", "encoding/json,encoding,encoding/base64"], max_steps=20_000_000,
                    reach={"VH_C16_PushPop": ["round-trip"], "VH_C16_IncludeNested": ["round-trip"], "VH_C16_Generated": ["round-trip"], "VH_C16_RuleFields": ["round-trip"]})],
-        bounds=dict(quick="19 catalogue definitions (every action kind, Include first/middle/nested/diamond, Return, elided rules with actions, back-references incl. one behind an unset group, multi-byte, non-ASCII and astral-plane patterns and names, names that start with a non-ASCII letter, names that need quoting) + 40 generated definitions, each marshalled both as a definition and as a rule set, x all inputs of <= 3 arbitrary bytes; rule fields: symbolic texts of <= 2 bytes",
+        bounds=dict(quick="20 catalogue definitions (every action kind, a state without rules, Include first/middle/nested/diamond, Return, elided rules with actions, back-references incl. one behind an unset group, multi-byte, non-ASCII and astral-plane patterns and names, names that start with a non-ASCII letter, names that need quoting) + 40 generated definitions, each marshalled both as a definition and as a rule set, x all inputs of <= 3 arbitrary bytes; rule fields: symbolic texts of <= 2 bytes",
                     thorough="400 generated definitions, inputs <= 4 bytes; rule-field texts as quick"),
         outside="definitions outside the catalogue and the generated family; patterns and names longer than the bound; non-ASCII text beyond one two-byte character in the symbolic rule fields (the catalogue has concrete non-ASCII patterns); invalid UTF-8 in names/patterns (encoding/json replaces it by U+FFFD; regexp.Compile rejects such patterns anyway)",
         assumptions=["encoding/json, encoding, encoding/base64 are executed from SSA; reflect is modelled over go/types; sync.Pool/sync.Map/sync.WaitGroup by single-threaded models",
@@ -49,7 +49,7 @@ PROPS = {
         level_note="trusted: the reference regex matcher that replaces package regexp on symbolic input (validated against the real regexp natively, and every counterexample is replayed against the real regexp before it is reported), the SSA executor (sampled paths replayed natively on every run), z3; bounds: 39 catalogue definitions + 100 (quick) / 400 (thorough) generated definitions, inputs <= 3 (quick) / <= 4 (thorough) bytes",
         runs=[dict(pkg="lexer", files=["lexer/zz_verif_stateful.go", "lexer/zz_verif_lexdefs.go", "lexer/zz_verif_lexgen.go"], harness="^VH_C03_",
                    reach={h: ["error", "tokens"] for h in ["VH_C03_Literal", "VH_C03_Overlap", "VH_C03_PushPop", "VH_C03_Return", "VH_C03_IncludeNested", "VH_C03_Backref", "VH_C03_Generated", "VH_C03_ElidedActions"]})],
-        bounds=dict(quick="100 generated definitions (deterministic generator: 3 states, 1-4 rules per state over 31 patterns, Push/Pop/Return/Include, elided rules with and without actions, back-references) and 45 catalogue definitions (literals, literal U+FFFD, escaped backslash + digit next to a back-reference, caseless rule names, (?i) literals with punctuation, overlapping rules, classes, ., multi-byte class, anchors/word boundaries, alternation, empty-matching rule, case folding, Push/Pop, Return, Include first/middle/nested, Pop and Return in Root, optional group in a Push rule, back-references incl. missing group, metacharacter group and a group behind an unset optional group, rule names starting with non-ASCII lower-case / upper-case / caseless letters) x all inputs of <= 3 arbitrary bytes (incl. invalid UTF-8)",
+        bounds=dict(quick="100 generated definitions (deterministic generator: 3 states, 1-4 rules per state over 31 patterns, Push/Pop/Return/Include, elided rules with and without actions, back-references) and 46 catalogue definitions (literals, literal U+FFFD, escaped backslash + digit next to a back-reference, caseless rule names, (?i) literals with punctuation, overlapping rules, classes, ., multi-byte class, anchors/word boundaries, alternation, empty-matching rule, case folding, Push/Pop, Return, Include first/middle/nested, Pop and Return in Root, optional group in a Push rule, back-references incl. missing group, metacharacter group and a group behind an unset optional group, rule names starting with non-ASCII lower-case / upper-case / caseless letters) x all inputs of <= 3 arbitrary bytes (incl. invalid UTF-8)",
                     thorough="400 generated definitions + same catalogue x all inputs of <= 4 arbitrary bytes"),
         outside="definitions outside the catalogue and the generated family; inputs longer than the bound; correctness of package regexp itself; back-reference groups containing bytes >= 0x80",
         assumptions=["package regexp is replaced on symbolic input by the engine's reference matcher (refre.go), leftmost-first semantics over regexp/syntax trees",
@@ -88,7 +88,7 @@ PROPS = {
         level_note="trusted: reference matchers (backtracking and possessive) standing in for package regexp on symbolic input, the SSA executor (sampled paths replayed natively through the emitted code), z3; bounds: 35 catalogue + 24 (quick) / 120 (thorough) generated definitions x inputs <= 3 (quick) / <= 4 (thorough) bytes",
         runs=[dict(pkg="lexer/internal/zzverifgen", pkg_name="zzverifgen", files=["gen/zz_verif_gen.go"], harness="^VH_C05_", generate="c05",
                    reach={"VH_C05_Literal": ["tokens", "error"], "VH_C05_Possessive": ["tolerated", "tokens"], "VH_C05_PushPop": ["tokens"], "VH_C05_G0": ["error"]})],
-        bounds=dict(quick="39 catalogue definitions of the generator's supported class (one per regexp operator the generator handles + multi-state Push/Pop/Return/Include + Pop/Return in Root + elided rules with actions + nullable repetition bodies + rule names starting with non-ASCII letters + literal U+FFFD + caseless rule names + (?i) literals with punctuation) and 24 generated definitions (deterministic generator restricted to the supported class) x all inputs of <= 3 arbitrary bytes",
+        bounds=dict(quick="40 catalogue definitions of the generator's supported class (one per regexp operator the generator handles + multi-state Push/Pop/Return/Include + Pop/Return in Root + elided rules with actions + nullable repetition bodies + rule names starting with non-ASCII letters + literal U+FFFD + caseless rule names + (?i) literals with punctuation) and 24 generated definitions (deterministic generator restricted to the supported class) x all inputs of <= 3 arbitrary bytes",
                     thorough="same catalogue + 120 generated definitions x all inputs of <= 4 arbitrary bytes"),
         outside="definitions outside the catalogue and the generated family; inputs longer than the bound; back-reference / non-greedy / empty-matching rules (documented as unsupported by the generator)",
         assumptions=["package regexp replaced by reference matchers on symbolic input; the tolerated-difference predicate is 'possessive and backtracking reference matchers disagree on the span of some rule the runtime lexer tried on this input'"],
@@ -260,7 +260,7 @@ import re as _re
 import subprocess as _sp
 
 C05_DEFS = ["Literal", "Overlap", "Classes", "Dot", "Multibyte", "Anchors", "Alternation", "Fold", "PushPop", "String",
-            "Return", "ReturnNested", "ReturnSelf", "IncludeFirst", "IncludeMiddle", "IncludeNested", "IncludeDiamond", "MultiLine", "Astral", "OddNames", "LiteralMB", "Latin1Class", "NonASCIINames", "ReplacementLit", "CaselessNames", "FoldPunct", "PopInRoot", "ReturnInRoot", "OptionalGroupPush",
+            "Return", "ReturnNested", "ReturnSelf", "IncludeFirst", "IncludeMiddle", "IncludeNested", "IncludeDiamond", "MultiLine", "Astral", "OddNames", "LiteralMB", "Latin1Class", "NonASCIINames", "ReplacementLit", "CaselessNames", "FoldPunct", "EmptyState", "PopInRoot", "ReturnInRoot", "OptionalGroupPush",
             "ElidedActions", "NullableStar", "Possessive", "Repeat", "EmptyAlt", "NoWordBoundary", "EndAnchors", "FoldClass", "DotAll", "NonASCIILit", "NegClass"]
 
 C05_GENERATED = {"quick": 24, "thorough": 120}
